@@ -1,6 +1,6 @@
 (* Proofs about the cluster model Cluster/PubSub.v: refinement of the single server under immediate
    consumption, echo filter, delayed consumption, callback relay. *)
-From VT Require Import Manager.ManagerProofs Manager.RoomsProofs Manager.AckProofs Base.PyStrProofs Check.C03Check.
+From VT Require Import Manager.ManagerProofs Cluster.RoomsFacts Manager.AckProofs Base.PyStrProofs.
 From VT Require Import Cluster.PubSub Cluster.ClusterLemmas.
 From Coq Require Import Lia Permutation.
 Open Scope N_scope.
